@@ -271,8 +271,14 @@ def problem(draw, n_basis_range=(2, 4), independent=True, max_train=5):
     deltas = draw(st.lists(st.lists(st.sampled_from([-0.25, -1 / 16.0, 0.0, 1 / 16.0, 0.25]),
                                     min_size=k, max_size=k), min_size=2, max_size=3))
     perturb = draw(st.lists(st.integers(1, 16), min_size=4, max_size=4))
+    # the 'index' descriptor of model and data: 0..n-1, or the values an earlier subset / reorder of
+    # a larger object leaves behind (distinct, not contiguous, not necessarily ascending)
+    index_vals = None
+    if draw(st.booleans()):
+        pool = list(draw(st.permutations(list(range(12)))))[:n]
+        index_vals = pool if draw(st.booleans()) else sorted(pool)
     return dict(n=n, basis=basis, data=data, nan_pairs=nan_pairs, idx=idx, sigma=sigma,
-                desc=desc, kind=kind, comps=comps, deltas=deltas, perturb=perturb)
+                desc=desc, kind=kind, comps=comps, deltas=deltas, perturb=perturb, index_vals=index_vals)
 
 
 class Built:
@@ -293,19 +299,20 @@ class Built:
         self.n_sel = len(self.sidx)
         labs = LABELS[:n]
         self.desc = case['desc']
-        pd_full = {'index': list(range(n)), 'lab': list(labs)}
+        ivals = [int(v) for v in (case.get('index_vals') or range(n))]
+        pd_full = {'index': list(ivals), 'lab': list(labs)}
         self.model_rdms = RDMs(basis.copy(), pattern_descriptors={k: list(v) for k, v in pd_full.items()},
                                dissimilarity_measure='euclidean')
         # training sample: the full data restricted to the sorted selection (own construction)
         self.data_exp = ref.sample_rdm_vectors(data, n, list(range(len(data))), self.sidx)
         self.basis_exp = ref.sample_rdm_vectors(basis, n, list(range(len(basis))), self.sidx)
-        pd_s = {'index': [int(i) for i in self.sidx], 'lab': [labs[i] for i in self.sidx]}
+        pd_s = {'index': [ivals[i] for i in self.sidx], 'lab': [labs[i] for i in self.sidx]}
         self.data_rdms = RDMs(self.data_exp.copy(), pattern_descriptors=pd_s,
                               dissimilarity_measure='euclidean')
         if idx is None:
             self.fit_kw = {}
         else:
-            vals = [int(i) for i in idx] if self.desc == 'index' else [labs[i] for i in idx]
+            vals = [ivals[i] for i in idx] if self.desc == 'index' else [labs[i] for i in idx]
             self.fit_kw = dict(pattern_idx=np.array(vals), pattern_descriptor=self.desc)
         self.sigma = None
         if case['sigma'] is not None and method.endswith('_cov'):
@@ -342,7 +349,8 @@ def problem_labels(case, prefix):
                         else 'sel:subset'),
               prefix + ('nan' if case['nan_pairs'] else 'no-nan'),
               prefix + ('sigma:matrix' if case['sigma'] is not None else 'sigma:none'),
-              prefix + 'desc:' + case['desc'], prefix + 'data:' + case['kind']]
+              prefix + 'desc:' + case['desc'], prefix + 'data:' + case['kind'],
+              prefix + 'index:' + ('default' if not case.get('index_vals') else 'inherited')]
     nt = len(case['basis']) >= 3 or (idx is not None and len(set(idx)) < len(idx)) or bool(case['nan_pairs'])
     return labels, nt
 
@@ -721,13 +729,19 @@ def api_case(draw):
     coef = [draw(st.integers(0, 8)) / 4.0 for _ in range(2)] if kind == 'interpolate' else \
         [draw(st.integers(-8, 8)) / 4.0 for _ in range(2)]
     sel = draw(st.integers(0, k - 1))
-    return dict(kind=kind, src=src, n=n, vecs=vecs, labels=labs, thetas=thetas, coef=coef, sel=sel)
+    index_vals = None
+    if src == 'rdms' and draw(st.booleans()):
+        index_vals = list(draw(st.permutations(list(range(12)))))[:n]
+    return dict(kind=kind, src=src, n=n, vecs=vecs, labels=labs, thetas=thetas, coef=coef, sel=sel,
+                index_vals=index_vals)
 
 
 def _build_model(case):
     kind, src, n = case['kind'], case['src'], case['n']
     vecs = np.array(case['vecs'], dtype=float)
     pd = {'lab': list(case['labels'])}
+    if case.get('index_vals'):
+        pd['index'] = [int(v) for v in case['index_vals']]
     if src == 'rdms':
         arg = RDMs(vecs.copy(), pattern_descriptors=pd, dissimilarity_measure='euclidean',
                    descriptors={'session': 1})
@@ -801,6 +815,12 @@ def check_api(case):
         if case['src'] == 'rdms':
             require(_desc_equal(r.pattern_descriptors.get('lab', []), case['labels']),
                     '%s predict_rdm lost the condition labels' % name, 'api:descriptors')
+            if case.get('index_vals') and not kind.startswith('fixed'):
+                # (ModelFixed documents nothing about 'index' and has always renumbered it)
+                require(_desc_equal(r.pattern_descriptors.get('index', []), case['index_vals']),
+                        "%s predict_rdm: 'index' descriptor %r, the model RDMs had %r" % (
+                            name, list(r.pattern_descriptors.get('index', [])), case['index_vals']),
+                        'api:descriptors:index')
         require(r.n_cond == case['n'], '%s predict_rdm n_cond %r' % (name, r.n_cond), 'api:descriptors')
     # defaults agree
     v0, r0 = _pred_pair(model, None, name + ' default theta', use_default=True)
@@ -838,7 +858,8 @@ def check_api(case):
 
 
 def classify_api(case):
-    labels = ['api:' + case['kind'], 'api:src:' + case['src'], 'api:k=%d' % len(case['vecs'])]
+    labels = ['api:' + case['kind'], 'api:src:' + case['src'], 'api:k=%d' % len(case['vecs']),
+              'api:index:' + ('inherited' if case.get('index_vals') else 'default')]
     return labels, len(case['vecs']) >= 2
 
 
